@@ -682,10 +682,26 @@ def answer (stream : String) (f : Array String) : Ans :=
       let p := unhex (g 3)
       let args := parseArgs (g 4)
       let ctx := parseCtx (g 5)
-      if C01.renderLine p args ctx ≠ line then { a with s := "RENDER-MISMATCH" } else
+      -- field 6 = "t": the operator of the context is written WITHOUT blanks around it (`prog 'a'|q`, `prog "b";q`): same
+      -- expected observable; no theorem is claimed for this spelling (guard 0), the spec is still the oracle
+      let tight := g 6 = "t"
+      let tightSuffix : Str := match ctx with
+        | .alone => [] | .pipe => "|q".toList | .semi => ";q".toList | .and => "&&q".toList | .or => "||q".toList
+      let rendered := if tight then C01.renderCmd p args ++ tightSuffix else C01.renderLine p args ctx
+      if rendered ≠ line then { a with s := "RENDER-MISMATCH" } else
       let cls := C01.classify es.env p args ctx
+      if tight then
+        -- the tokenizer's `\\` tag of a word that starts with an escaped `|` stays on while the following words start with an
+        -- escaped character; a `|` written directly after such a word is appended to it (parser_line.rs: the pipe test needs sep == "")
+        let sticky := args.foldl (fun (st : Bool) (x : C01.Style × Str) => match x with
+          | (.esc, c :: _) => if c = '|' then true else if C01.isSpecial c then st else false
+          | _ => false) false
+        let cls' := if cls = "esc-other" || cls = "-" then (if sticky && ctx = .pipe then "esc-pipe-first-tight" else "-") else cls
+        { a with s := if cls.startsWith "outside-statement" then "-" else obsOut (C01.expectedObs p args ctx), guard := "0",
+                 cls := cls' } else
       { a with s := if cls.startsWith "outside-statement" then "-" else obsOut (C01.expectedObs p args ctx),
-               guard := if C01.guard es.env p args then "1" else "0",
+               -- = `guardEsc` (Thm/C01esc.lean) by theorem `guardEsc_iff`: the complement of the finding classes
+               guard := if (cls = "-" || cls = "esc-other") && (ctx ≠ .pipe || (lookup es.env.aliases ['q']).isNone) then "1" else "0",
                cls := cls }
     else if g 2 = "c13" then
       let p := unhex (g 3)
@@ -705,6 +721,18 @@ def answer (stream : String) (f : Array String) : Ans :=
         else if !allDq then "unquoted-delivery"
         else "dq-command-substitution"
       { a with s := spec, guard := if guard then "1" else "0", cls := cls }
+    else if g 2 = "c13g" then
+      -- prog PATTERN: the delivery is filename expansion; whatever the matching names are, the plan must be one plain stage
+      -- whose arguments are exactly the visible matches (or the pattern itself)
+      let p := unhex (g 3)
+      let pat := unhex (g 4)
+      if p ++ ' ' :: pat ≠ line then { a with s := "RENDER-MISMATCH" } else
+      let words := C12.globWords ((es.env.glob pat).getD []) pat
+      let safeName (w : Str) : Bool :=
+        !(w.any (fun c => c = '>' || c = '<' || c = '|' || c = '`' || c = '{')) && !hasInfix ['$', '('] w && w ≠ ['&']
+      let guard := words.all safeName && (es.env.glob pat).isSome
+      { a with s := obsOut { stages := [(p :: words, [], none)], envs := [], background := false },
+               guard := if guard then "1" else "0", cls := if guard then "-" else "filename-reread" }
     else if g 2 = "c11" then
       -- prog ARG, ARG = [dq] pre ++ ($(cmd) | `cmd`) ++ post [dq]
       let p := unhex (g 3)
@@ -892,6 +920,31 @@ def answer (stream : String) (f : Array String) : Ans :=
     let ok := ops.all (fun o => match o with | .read _ _ l => readRunFree l | _ => true)
     { m := "|".intercalate (run (EnvCd.step fs)), s := "|".intercalate (run (EnvCd.specStep fs)),
       guard := "1", cls := if ok then "-" else "read-blank-runs" }
+  | "substate" =>
+    -- C11: a history in which the operations listed in field 6 are written INSIDE a command substitution
+    -- (`true $(cd d1)`), and optionally a `true $(exit N)` after operation number (field 7).  Model: a captured builtin runs
+    -- in the shell process itself, so its effect stays (and `exit` ends the shell); reference: the shell's state is unaffected.
+    let init : EnvCd.St := { exported := pairsIn (g 0), cwd := unhex (g 3) }
+    let names := if g 1 = "[]" then [] else (g 1).splitOn "," |>.map unhex
+    let ops := parseEnvOps (g 4)
+    let fs := EnvCd.treeFs (parseTree (g 5))
+    let wrapped := natList (g 6)
+    let exitAfter : Option Nat := (g 7).toNat?
+    let opt : Option Str → String := fun o => match o with | some x => hex x | none => "~"
+    let dead := "?;3f;?;;?"
+    let run := fun (inProcess : Bool) =>
+      ((ops.zipIdx).foldl (fun (acc : EnvCd.St × List String × Bool) (op, i) =>
+        let (st0, outs, gone) := acc
+        if gone then (st0, outs ++ [dead], true) else
+        let (s', st, ex) :=
+          if wrapped.contains i then
+            (if inProcess then ((EnvCd.step fs st0 op).1, (0 : Int), []) else (st0, 0, []))
+          else EnvCd.specStep fs st0 op
+        let line := s!"{st};{hex s'.cwd};{hex s'.cwd};{",".intercalate (names.map fun n => hex (EnvCd.expandsTo s' n))};{",".intercalate (names.map fun n => opt (EnvCd.childSees s' ex n))}"
+        (s', outs ++ [line], inProcess && exitAfter == some i)) (init, [], false)).2.1
+    let touched := !wrapped.isEmpty || exitAfter.isSome
+    { m := "|".intercalate (run true), s := "|".intercalate (run false),
+      guard := if touched then "0" else "1", cls := if touched then "inner-builtin-state" else "-" }
   | "jobs" =>
     let ops := parseJobOps (g 0)
     let (s, outs) := ops.foldl (fun (acc : Jobs.Sh × List String) op =>
